@@ -95,6 +95,7 @@ fn mk_span(l: &Lvl, level: usize) -> Span {
         1 => tracing::info_span!("s", a = va.as_str(), b = Empty),
         2 => tracing::info_span!("s", a = Empty, b = vb.as_str()),
         4 => tracing::info_span!("s"), // a callsite that declares no fields at all
+        8 => tracing::info_span!("s", a = "", b = Empty), // an empty string is a value: it shadows an outer a like any other
         _ => tracing::info_span!("s", a = va.as_str(), b = vb.as_str()),
     }
 }
@@ -202,6 +203,9 @@ fn walk(env: &mut Env<'_>, depth: usize, parent_labels: Option<BTreeMap<String, 
     if l.create & 2 != 0 {
         mine.insert("b".into(), format!("L{}b", depth));
     }
+    if l.create == 8 {
+        mine.insert("a".into(), String::new());
+    }
     if let Some(p) = &parent_labels {
         for (k, v) in p {
             mine.entry(k.clone()).or_insert(v.clone());
@@ -253,6 +257,9 @@ fn walk_child_then_record(env: &mut Env<'_>, depth: usize, span: &Span, l: &Lvl,
         if cl.create & 2 != 0 {
             cm.insert("b".into(), format!("L{}b", depth + 1));
         }
+        if cl.create == 8 {
+            cm.insert("a".into(), String::new());
+        }
         for (k, v) in &snapshot {
             cm.entry(k.clone()).or_insert(v.clone());
         }
@@ -297,6 +304,9 @@ fn levels() -> Vec<Lvl> {
     }
     // a span whose callsite declares no fields (nothing to record on it)
     v.push(Lvl { create: 4, record: 0, late: false });
+    // a span created with a = "" (an empty string is a value)
+    v.push(Lvl { create: 8, record: 0, late: false });
+    v.push(Lvl { create: 8, record: 2, late: true });
     v
 }
 
@@ -1035,7 +1045,7 @@ fn main() {
     driver::main(CheckDef {
         prop: "C17",
         level: "model_checking",
-        rule: "all span trees (chains of nested spans) up to the stated depth where every level independently takes one of 20 variants (fields a,b given at creation or left Empty; a later record() of a or b, either right after creation or after the child span was created), x filters {IncludeAll, custom per-metric closure, Allowlists over {a,b,c}} x metric own-label sets ⊆ {a,c} x 2 metric names x 3 kinds, emitted inside every level, after every subtree, after leaving every level and outside any span, on the real MetricsLayer + TracingContextLayer over a real tracing-subscriber registry, optionally with a second thread holding a conflicting span on the same subscriber; the key reaching the inner recorder is compared with a reference precedence map (metric > inner span > outer span-at-child-creation, record() replaces); plus, at the value-formatting callback inside Span::record (the one point where other code can run during a record), every action of {emit in the span, create a child and emit in it} x {same thread, another thread} and a concurrent record of the other field: the emission sees the labels from before or after the record, never a torn set; plus field value types (str, bool, i64/u64 extremes, Debug, Display, f64, u128, Empty); distinct = distinct resulting label sets; span identity: every sequence of 6 (thorough 8) operations over a pool of 3 spans from ONE callsite with different field values (create under the current span, enter/exit, record, drop the handle, a wide pair of spans with 40 labels created, checked and closed — label maps are pooled —, and the same recorder used for a moment under a second subscriber instance; the recorder's first emission is made before any subscriber exists — so that the registry hands span ids out again), an emission after every step; level shapes include a record of two fields in ONE Span::record_all call",
+        rule: "all span trees (chains of nested spans) up to the stated depth where every level independently takes one of 20 variants (fields a,b given at creation or left Empty; a later record() of a or b, either right after creation or after the child span was created), x filters {IncludeAll, custom per-metric closure, Allowlists over {a,b,c}} x metric own-label sets ⊆ {a,c} x 2 metric names x 3 kinds, emitted inside every level, after every subtree, after leaving every level and outside any span, on the real MetricsLayer + TracingContextLayer over a real tracing-subscriber registry, optionally with a second thread holding a conflicting span on the same subscriber; the key reaching the inner recorder is compared with a reference precedence map (metric > inner span > outer span-at-child-creation, record() replaces); plus, at the value-formatting callback inside Span::record (the one point where other code can run during a record), every action of {emit in the span, create a child and emit in it} x {same thread, another thread} and a concurrent record of the other field: the emission sees the labels from before or after the record, never a torn set; plus field value types (str, bool, i64/u64 extremes, Debug, Display, f64, u128, Empty); distinct = distinct resulting label sets; span identity: every sequence of 6 (thorough 8) operations over a pool of 3 spans from ONE callsite with different field values (create under the current span, enter/exit, record, drop the handle, a wide pair of spans with 40 labels created, checked and closed — label maps are pooled —, and the same recorder used for a moment under a second subscriber instance; the recorder's first emission is made before any subscriber exists — so that the registry hands span ids out again), an emission after every step; level shapes include a span created with an empty-string value and a record of two fields in ONE Span::record_all call",
         assumptions: &["span trees are chains (each span has at most one child): sibling spans are independent by construction of the per-span label map"],
         parts,
         run,
